@@ -172,6 +172,19 @@ func FindDroppedColumns(dataDir, dbName string) (*DroppedColumnsResult, error) {
 		return nil, fmt.Errorf("database %q not found", dbName)
 	}
 	
+	droppedCols, err := droppedColumnsOfDB(dataDir, dbOID)
+	if err != nil {
+		return nil, err
+	}
+	
+	result.Columns = droppedCols
+	result.DroppedCount = len(droppedCols)
+	
+	return result, nil
+}
+
+// droppedColumnsOfDB finds the dropped columns of the database stored under base/<dbOID>
+func droppedColumnsOfDB(dataDir string, dbOID uint32) ([]DroppedColumnInfo, error) {
 	basePath := filepath.Join(dataDir, "base", strconv.FormatUint(uint64(dbOID), 10))
 	
 	// Read pg_attribute
@@ -193,12 +206,7 @@ func FindDroppedColumns(dataDir, dbName string) (*DroppedColumnsResult, error) {
 	}
 	
 	// Parse attributes looking for dropped columns
-	droppedCols := parseDroppedColumns(attrData, tableNames)
-	
-	result.Columns = droppedCols
-	result.DroppedCount = len(droppedCols)
-	
-	return result, nil
+	return parseDroppedColumns(attrData, tableNames), nil
 }
 
 // parseDroppedColumns parses pg_attribute looking for dropped columns
@@ -443,18 +451,42 @@ func ScanDroppedColumns(dataDir string) ([]DroppedColumnsResult, error) {
 		return nil, err
 	}
 	
-	for _, db := range ParsePGDatabase(dbData) {
+	// pg_database is read and parsed once (not once more per row), and the catalogs of every database
+	// directory are parsed once: a damaged pg_database can hold thousands of rows naming the same
+	// database.  A name stands for the first row that carries it, as in FindDroppedColumns.
+	dbs := ParsePGDatabase(dbData)
+	oidOf := make(map[string]uint32, len(dbs))
+	for _, db := range dbs {
+		if _, ok := oidOf[db.Name]; !ok {
+			oidOf[db.Name] = db.OID
+		}
+	}
+	type scanned struct {
+		cols []DroppedColumnInfo
+		err  error
+	}
+	byOID := make(map[uint32]scanned)
+	
+	for _, db := range dbs {
 		if strings.HasPrefix(db.Name, "template") {
 			continue
 		}
 		
-		result, err := FindDroppedColumns(dataDir, db.Name)
-		if err != nil {
+		dbOID := oidOf[db.Name]
+		if dbOID == 0 {
+			continue // FindDroppedColumns: database not found
+		}
+		sc, ok := byOID[dbOID]
+		if !ok {
+			sc.cols, sc.err = droppedColumnsOfDB(dataDir, dbOID)
+			byOID[dbOID] = sc
+		}
+		if sc.err != nil {
 			continue
 		}
 		
-		if result.DroppedCount > 0 {
-			results = append(results, *result)
+		if len(sc.cols) > 0 {
+			results = append(results, DroppedColumnsResult{Database: db.Name, Columns: sc.cols, DroppedCount: len(sc.cols)})
 		}
 	}
 	
